@@ -244,6 +244,23 @@ def run_case(case, ctx):
                                       "%s(%s(T)) != T bitwise for %s shape %s dtype %s layout %s" % (inv[0], opname, params, shape, dt, kind),
                                       {"shape": shape, "dtype": dt, "params": params, "layout": kind, "got": back})
                         return
+                if vals is planes[0] and len(planes) > 1 and T.flags.writeable and n >= 2 and not np.shares_memory(T, vals):
+                    # history: the same array object, edited in place by its owner, unfolded again: the rearrangement is a function
+                    # of the current contents, never of an earlier call
+                    vals2 = planes[1]
+                    T[...] = vals2.reshape(shape)
+                    out2 = fwd(T)
+                    ctx.count("calls/%s_after_inplace_edit" % opname)
+                    if not _same(out2, vals2[E]):
+                        ctx.violation("C01:%s:stale-after-inplace-edit" % opname,
+                                      "%s%s called again on the same array object after an in-place edit does not reflect the new contents (shape %s dtype %s layout %s)" % (
+                                          opname, params, shape, dt, kind), {"shape": shape, "dtype": dt, "params": params, "layout": kind})
+                        return
+                    if inv is not None and not _same(inv[1](out2), vals2.reshape(shape)):
+                        ctx.violation("C01:%s:stale-after-inplace-edit" % inv[0], "%s of the second unfolding does not give the edited tensor (shape %s dtype %s)" % (inv[0], shape, dt),
+                                      {"shape": shape, "dtype": dt, "params": params, "layout": kind})
+                        return
+                    T[...] = A
             if inv is not None:
                 # fold applied to an independently constructed unfolding, in several layouts
                 for kind, U in layouts(expected, ("C", "F", "strided", "readonly")):
